@@ -80,6 +80,12 @@ def _formula_sets(tier):
     intf = [f for f in F.F(1, F.unary_ops(Iq), F.binary_ops(Iq), [(F.PX, F.PY, F.X)])] + \
         [('pred', '>=', t, F.C0) for t in F.arith_terms(1) if t[0] not in ('sqrt', 'ln', 'log', 'exp')] + [f for f in F.patterns()][:12]
     sets.append(('IntData', intf, (-1, 0, 2), 3))
+    # three variables
+    Z = ('var', 'z')
+    PZ = ('pred', '>', Z, F.C0)
+    sets.append(('ThreeVars', [('and', F.PX, ('or', F.PY, PZ)), ('since', None, PZ, ('and', F.PX, F.PY)), ('until', (0, 1), F.PX, ('implies', F.PY, PZ)),
+                               ('pred', '>=', ('+', F.X, ('*', F.Y, Z)), F.C0), ('always', (0, 1), ('iff', ('once', (0, 1), PZ), ('xor', F.PX, F.PY))),
+                               ('or', ('prev', PZ), ('and', ('next', F.PY), ('rise', F.PX)))], F.V2, 3))
     # S5: temporal operators directly over arithmetic terms and bare variables, three variables (one unused)
     sets.append(('Unused', [('once', (0, 1), ('-', F.X, F.Y)), ('always', (1, 2), ('neg', F.X)), ('until', None, F.X, ('abs', F.Y))],
                  F.V2, 3))
